@@ -278,6 +278,7 @@ unit(id="partition.exec", src=PART, path=[("fn", "exec")], mod="partition", frag
           "            *iter == it0, *function == fn0, typed_as_iterator(*iter),\n"
           "            left@ == part_yes(*function, kept_elems(pulled)), /*@obl:partition.exec.first_array_holds_the_accepted_elements_in_pull_order*/\n"
           "            right@ == part_no(*function, kept_elems(pulled)), /*@obl:partition.exec.second_array_holds_the_other_elements_in_pull_order*/\n"
+          "            all_ok(*function, kept_elems(pulled)), /*@obl:partition.exec.an_error_of_the_predicate_ends_the_loop*/\n"
           "            forall|i: int| 0 <= i < left@.len() ==> accepted(*function, #[trigger] left@[i]),\n"
           "            forall|i: int| 0 <= i < right@.len() ==> !accepted(*function, #[trigger] right@[i]),\n"
           "        ensures\n"
@@ -288,6 +289,7 @@ unit(id="partition.exec", src=PART, path=[("fn", "exec")], mod="partition", frag
          ("partition.exec.first_array_holds_the_accepted_elements_in_pull_order", ["C11"], None),
          ("partition.exec.second_array_holds_the_other_elements_in_pull_order", ["C11"], None),
          ("partition.exec.stops_at_the_first_pull_that_ends_the_sequence", ["C11"], None),
+         ("partition.exec.an_error_of_the_predicate_ends_the_loop", ["C11"], None),
          ("partition.exec.yields_the_pair_accepted_then_others", ["C11"],
           f"r is Ok ==> r->Ok_0 is Tuple && r->Ok_0->Tuple_0.elems@.len() == 2 && r->Ok_0->Tuple_0.elems@[0] is Array && r->Ok_0->Tuple_0.elems@[1] is Array "
           f"&& (forall|i: int| 0 <= i < r->Ok_0->Tuple_0.elems@[0]->Array_0.elems@.len() ==> accepted({_PF}, #[trigger] r->Ok_0->Tuple_0.elems@[0]->Array_0.elems@[i])) "
